@@ -486,6 +486,17 @@ class Sym:
             a, _ = self.operand(path, m.group(2))
             if a.kind == "bv":
                 return bv("(bvneg %s)" % a.t, a.w, a.signed), None
+        if m and m.group(1) == "PtrMetadata":
+            # length of a slice reference: one symbol per (canonical) place holding the reference
+            try:
+                v0, rp0 = self.operand(path, m.group(2))
+            except ValueError:
+                rp0 = None
+            if rp0 is not None:
+                key = "len(%s)" % self.key(rp0)
+                if key not in path.store:
+                    path.store[key] = self.sym_for(key, "usize")
+                return path.store[key], None
         if m and m.group(1) == "discriminant":
             p = parse_place(m.group(2))
             rp = ("discr", self.resolve(path, p))
@@ -648,7 +659,7 @@ class Sym:
                     if re.search(pat, t["func"]):
                         res = fnm(self, path, args, dty)
                         break
-                path.events.append((t["func"], [getattr(a, "t", None) for a in args], bb, list(path.pc)))
+                path.events.append((t["func"], [getattr(a, "t", None) for a in args], bb, list(path.pc), args))
                 if res is None:
                     # an unmodelled callee may write through every `&mut` argument: forget what is known below it
                     for a in args:
